@@ -21,6 +21,7 @@ PROFILES = {
     'composed': lambda rnd: sp.gen_composed(rnd),
     'deco': lambda rnd: sp.gen_deco(rnd),
     'fixrec0': lambda rnd: sp.gen_fixrec0(rnd),
+    'tuplelabels': lambda rnd: sp.gen_tuplelabels(rnd),
     'isolate': lambda rnd: sp.gen_isolate(rnd),
     'isolate_sto': lambda rnd: sp.gen_isolate(rnd, 'sto'),
     'monfix': lambda rnd: sp.gen_monfix(rnd),
@@ -81,7 +82,8 @@ def main():
                               tags=info.get('tags', []), unknown=info.get('unknown', []),
                               hist=dict(done=info.get('hist_done', 0), injected=info.get('hist_injected', 0), cut=info.get('hist_cut', 0), exc=info.get('hist_exc'))))
             nexp += len(exp)
-            fi.write("\n".join(inp) + "\n"); fe.write("\n".join(exp) + "\n")
+            if inp: fi.write("\n".join(inp) + "\n")
+            if exp: fe.write("\n".join(exp) + "\n")
     json.dump(dict(index=index, violations=viol, timeouts=timeouts), open(os.path.join(out, 'index.json'), 'w'))
 
 
